@@ -64,6 +64,65 @@ def parseActs (s : String) : Option (List Act) :=
   | some (as, []) => some as
   | _ => none
 
+mutual
+/-- router payload `[ract;ract;…]`, fuel-bounded recursive descent -/
+def parseRList : Nat → List Char → Option (List RAct × List Char)
+  | 0, _ => none
+  | fuel + 1, cs =>
+    match cs with
+    | '[' :: ']' :: rest => some ([], rest)
+    | '[' :: rest => parseRItems fuel rest
+    | _ => none
+def parseRItems : Nat → List Char → Option (List RAct × List Char)
+  | 0, _ => none
+  | fuel + 1, cs =>
+    match parseRAct fuel cs with
+    | none => none
+    | some (a, rest) =>
+      match rest with
+      | ';' :: rest' =>
+        match parseRItems fuel rest' with
+        | some (as, r) => some (a :: as, r)
+        | none => none
+      | ']' :: rest' => some ([a], rest')
+      | _ => none
+def parseRAct : Nat → List Char → Option (RAct × List Char)
+  | 0, _ => none
+  | fuel + 1, cs =>
+    let word := cs.takeWhile Char.isAlpha
+    let rest := cs.dropWhile Char.isAlpha
+    match String.ofList word with
+    | "collect" => some (.collect, rest)
+    | "fail" => some (.fail, rest)
+    | "fund" => do let r ← expect ':' rest; let (n, r) ← takeNat r; pure (.fund n, r)
+    | "pay" => do let r ← expect ':' rest; let (n, r) ← takeNat r; pure (.pay n, r)
+    | "dep" => do let r ← expect ':' rest; let (n, r) ← takeNat r; pure (.deposit n, r)
+    | "out" => do
+        let r ← expect ':' rest; let (t, r) ← takeNat r
+        let r ← expect ':' r; let (n, r) ← takeNat r
+        pure (.out t n, r)
+    | "complete" => do
+        let r ← expect ':' rest; let (t, r) ← takeNat r
+        let r ← expect ':' r; let (n, r) ← takeNat r
+        pure (.complete t n, r)
+    | "adv" => do
+        let r ← expect ':' rest
+        let (cb, r) ← parseList fuel r
+        pure (.adv cb, r)
+    | "rloan" => do
+        -- a router FlashLoan sent from inside a payload: the sender (initiator) is the router itself
+        let r ← expect ':' rest; let (n, r) ← takeNat r
+        let r ← expect ':' r
+        let (pl, r) ← parseRList fuel r
+        pure (.routerLoan 5 n pl, r)
+    | _ => none
+end
+
+def parseRActs (s : String) : Option (List RAct) :=
+  match parseRList (4 * s.length + 8) s.toList with
+  | some (as, []) => some as
+  | _ => none
+
 def commaNats (s : String) : Option (List Nat) := (s.splitOn ",").mapM String.toNat?
 
 def showList (l : List Nat) : String := ",".intercalate (l.map toString)
@@ -84,7 +143,7 @@ def initSt (ws : List String) : Option St := do
   let f ← lookupNat m "f"
   let b ← lookupNat m "b"
   let bals ← commaNats (lookupStr m "bals")
-  if bals.length ≠ 5 then none
+  if bals.length ≠ 6 then none
   else some (Vault.init kind { prot := p, flash := f, burn := b } bals)
 
 def parseOp (ws : List String) : Option Op :=
@@ -96,6 +155,12 @@ def parseOp (ws : List String) : Option Op :=
   | ["toggles", a, b, c] => do pure (.setToggles ((← a.toNat?) != 0) ((← b.toNat?) != 0) ((← c.toNat?) != 0))
   | ["loan", n, cb] => do pure (.loan (← n.toNat?) (← parseActs cb))
   | ["donate", a, b] => do pure (.donate (← a.toNat?) (← b.toNat?))
+  | ["rloan", i, n, pl] => do pure (.routerLoan (← i.toNat?) (← n.toNat?) (← parseRActs pl))
+  | ["rloan0", w, pl] => do pure (.routerLoanNone (← w.toNat?) (← parseRActs pl))
+  | ["rloan2", w, a, b, pl] => do pure (.routerLoanMulti (← w.toNat?) (← a.toNat?) (← b.toNat?) (← parseRActs pl))
+  | ["rfund", a, b] => do pure (.fundRouter (← a.toNat?) (← b.toNat?))
+  | ["xnext", w, n, pl] => do pure (.nextLoanBy (← w.toNat?) (← n.toNat?) (← parseRActs pl))
+  | ["xcomplete", w, i, n] => do pure (.completeLoanBy (← w.toNat?) (← i.toNat?) (← n.toNat?))
   | _ => none
 
 def stepLine (s : St) (ws : List String) : St × String :=
